@@ -122,7 +122,7 @@ def cases(ctx):
         yield enc_case(tx, "ints")
     # scripts with structure the random grammar rarely produces: several OP_ELSE in one conditional, empty branches, conditionals
     # opened by each of the four openers, nested in pass and else branches - in an input and in an output
-    STRUCT = ["63676768", "635167526753 68".replace(" ", ""), "6367686367 67 68".replace(" ", ""), "64676767 68".replace(" ", ""), "63 63 67 67 68 67 67 68".replace(" ", ""), "63 67 63 67 67 68 67 68".replace(" ", ""),
+    STRUCT = ["76a914" + "00" * 19 + "88ac", "76a914" + "22" * 20 + "88ac" + "76a914" + "33" * 20 + "88ac", "76a914" + "44" * 20 + "5188ac", "76a914" + "55" * 20 + "6188ac76a988ac", "63676768", "635167526753 68".replace(" ", ""), "6367686367 67 68".replace(" ", ""), "64676767 68".replace(" ", ""), "63 63 67 67 68 67 67 68".replace(" ", ""), "63 67 63 67 67 68 67 68".replace(" ", ""),
               "6368", "636768", "656768", "66676768", "51 63 00 67 51 67 00 68".replace(" ", ""), "63 64 65 66 68 68 68 68".replace(" ", ""), "63 4c00 67 4d0000 67 4e00000000 68".replace(" ", "")]
     for si, sh in enumerate(STRUCT):
         k += 1
